@@ -139,6 +139,8 @@ def _m(p, n, env):
         for k, v in p.items():
             if k in SKIP:
                 continue
+            if k == "semi" and p.get("t") == "ExprStmt" and _unit_expr(p.get("expr")):
+                continue    # `x = y` and `x = y;` as the last statement of a block are the same
             if k == "member" and isinstance(v, str) and v.startswith("__v_"):
                 if v in env and env[v] != n.get(k):
                     return False
@@ -154,6 +156,18 @@ def _m(p, n, env):
             return False
         return _mlist(p, n, env)
     return p == n
+
+
+def _unit_expr(e):
+    if not isinstance(e, dict):
+        return False
+    if e.get("t") == "Assign":
+        return True
+    if e.get("t") == "Binary" and e["op"].endswith("=") and e["op"] not in ("==", "!=", "<=", ">="):
+        return True
+    if e.get("t") in ("While", "ForLoop"):
+        return True
+    return False
 
 
 def _is_rest(st):
